@@ -198,6 +198,10 @@ static std::vector<std::pair<std::string, Obs>> read_variants(int n, int i1, int
     add("const.copy", observe([&] { auto s = cx.slice(i1, i2, m); const_slice_t<T> c(s); return iter_tags(c); }));
     add("const.from_mut", observe([&] { auto s = x.slice(i1, i2, m); const_slice_t<T> c(s); return iter_tags(c); }));
     add("const.copy.mat", observe([&] { auto s = cx.slice(i1, i2, m); const_slice_t<T> c(s); base_array<T> y(c); return tags(y); }));
+    // assignment of the slice to an existing array: another one, and the very array the slice views
+    add("assign.other", observe([&] { base_array<T> y = fresh<T>(n + 1, 100); y = cx.slice(i1, i2, m); return tags(y); }));
+    add("assign.self", observe([&] { base_array<T> z(x); z = z.slice(i1, i2, m); return tags(z); }));
+    add("assign.self.const", observe([&] { base_array<T> z(x); const base_array<T>& cz = z; z = cz.slice(i1, i2, m); return tags(z); }));
     if (i2 >= 0 && r2 == n) {
         add("mut.end", observe([&] { auto s = x.slice(i1, indexing::end, m); return iter_tags(s); }));
         add("const.end", observe([&] { auto s = cx.slice(i1, indexing::end, m); return iter_tags(s); }));
